@@ -68,6 +68,26 @@ ALL['C05'] = {
     'rejected-add-asset-keeps-id-free': H([['add_asset', 0, 0, 0, True], ['add_asset', 0, 0, 4, False], ['add_asset', 0, 1, 4, True]]),
     'explicit-id-zero-honoured': H([['add_asset', 0, 0, 4, True], ['add_asset', 0, 1, 1, True]]),
     'self-link-neighbours-both-fields': H([['add_asset', 0, 0, 0, True], ['add_assoc', 1, [0], [0]]]),
+    'remove-asset-reflexive-multi-member': H([['add_asset', 0, 0, 0, True], ['add_asset', 0, 1, 0, True],
+                                              ['add_assoc', 1, [0, 1], [0, 1]], ['remove_asset', 0]]),
+}
+
+ALL['C03'] = {
+    'extend-alias-history': ('histories', {'spec': ALL['C01']['extend-alias-leaks-to-parent'][1]['spec'],
+                                           'ops': [['lookup', 2], ['lookup', 1], ['newgraph'], ['attackgraph']]}),
+}
+
+seqlang1 = lang([asset('Host', [step('access'), step('guard', 'defense', ttc=fun('Enabled'))])],
+                [assoc('Seq', 'Host', 'prev', 'Host', 'nxt')])
+ALL['C07'] = {
+    'association-extras-json': ('roundtrip', {'spec': seqlang1, 'model': model([A('Host', 'h0'), A('Host', 'h1')], [(0, [0], [1])]),
+                                              'removals': [], 'link_extras': [[0, {'x': 1}]], 'fmt': 0, 'mname': 'm'}),
+    'association-extras-yaml': ('roundtrip', {'spec': seqlang1, 'model': model([A('Host', 'h0'), A('Host', 'h1')], [(0, [0], [1])]),
+                                              'removals': [], 'link_extras': [[0, {'note': 'yes'}]], 'fmt': 1, 'mname': 'm'}),
+    'id-zero-not-first-in-file': ('handwritten-files', {'spec': seqlang1, 'mname': 'hand', 'fmt': 1, 'links': [{'assoc': 0, 'left': [0], 'right': [5], 'scalar': False}],
+        'attackers': [{'id': 40, 'name': 'Att0', 'entry_points': [[0, ['access']]]}],
+        'assets': [{'id': 5, 'name': 'p', 'type': 'Host', 'shorthand': False, 'defenses': {}, 'extras': None},
+                   {'id': 0, 'name': 'q', 'type': 'Host', 'shorthand': False, 'defenses': {'guard': 0.5}, 'extras': None}]}),
 }
 
 if __name__ == '__main__':
